@@ -12,6 +12,10 @@
  *     taskpool (PARSEC_OBJ_NEW(parsec_taskpool_t): no detector, no startup hook, nothing to do): it
  *     terminates inside parsec_context_add_taskpool, its on_enqueue runs after that; its enqueue stamp
  *     is counted (enq) but takes no part in seq / clast / tpw
+ *     NESTED compositions: an element "( m ; m ; ... )" is itself a compound, built first and then given to
+ *     parsec_compose as ONE element: [ A ; ( B ; C ) ; D ] = parsec_compose(parsec_compose(A, parsec_compose(B, C)), D).
+ *     (parsec_compose appends to a compound given as its first argument: the first element of a group is a leaf.)
+ *     Members are numbered in order of their leaves; every observation is about that flattened sequence.
  *   one member: parsec_compose(tp, NULL) returns tp itself; its own completion callback
  *   plays the role of the compound's.
  *
@@ -35,7 +39,8 @@
 #define MAXT 512
 #define GATE_MS 400
 
-typedef struct { int n, threads, mode, spin; char sched[32]; int nt[MAXP], w[MAXP], bare[MAXP]; } case_t;
+#define MAXTOK 128
+typedef struct { int n, threads, mode, spin; char sched[32]; int nt[MAXP], w[MAXP], bare[MAXP]; int ntok, tok[MAXTOK]; } case_t;
 static case_t C;
 
 static volatile int64_t t_begin[MAXP][MAXT], t_end[MAXP][MAXT];
@@ -70,6 +75,27 @@ static int cb_compound(parsec_taskpool_t *tp, void *d) {
     return 0;
 }
 
+/* the compounds parsec_compose created (to free them) */
+static parsec_taskpool_t *comps[MAXTOK]; static int ncomp;
+static void note_compound(parsec_taskpool_t *x) {
+    if (!x || x->taskpool_type != PARSEC_TASKPOOL_TYPE_COMPOUND) return;
+    for (int i = 0; i < ncomp; i++) if (comps[i] == x) return;
+    if (ncomp < MAXTOK) comps[ncomp++] = x;
+}
+/* builds the group that starts at token *pos (up to the matching -2 or the end) through parsec_compose, left to right */
+static parsec_taskpool_t *build_group(parsec_taskpool_t **tp, int *pos, int depth) {
+    parsec_taskpool_t *acc = NULL;
+    while (*pos < C.ntok) {
+        int t = C.tok[(*pos)++];
+        parsec_taskpool_t *e;
+        if (t == -2) { if (depth > 0) return acc; continue; }
+        if (t == -1) e = build_group(tp, pos, depth + 1); else e = tp[t];
+        acc = parsec_compose(acc, e);
+        note_compound(acc);
+    }
+    return acc;
+}
+
 static int parse_case(const char *line, case_t *c) {
     static char l[HC_MAXLINE];
     strncpy(l, line, HC_MAXLINE - 1); l[HC_MAXLINE - 1] = 0;
@@ -80,17 +106,23 @@ static int parse_case(const char *line, case_t *c) {
     int seed;
     if (sscanf(l, "cmp %d %31s %d %d %d", &c->threads, c->sched, &c->mode, &c->spin, &seed) != 5) return 0;
     if (c->threads < 1 || c->threads > 64 || c->mode < 0 || c->mode > 2) return 0;
-    char *s = bar + 1;
+    /* members in leaf order; the bracket structure is kept as a token list for the builder */
+    char *s = bar + 1; int depth = 0;
+    c->ntok = 0;
     for (;;) {
         while (*s == ' ' || *s == ';') s++;
         if (!*s) break;
+        if (c->ntok >= MAXTOK) return 0;
+        if (*s == '(') { c->tok[c->ntok++] = -1; depth++; s++; continue; }
+        if (*s == ')') { if (depth <= 0) return 0; c->tok[c->ntok++] = -2; depth--; s++; continue; }
         int nt, w, used = 0;
-        if (*s == 'b') { if (c->n >= MAXP) return 0; c->bare[c->n] = 1; c->nt[c->n] = 0; c->w[c->n] = 1; c->n++; s++; continue; }
+        if (*s == 'b') { if (c->n >= MAXP) return 0; c->bare[c->n] = 1; c->nt[c->n] = 0; c->w[c->n] = 1; c->tok[c->ntok++] = c->n; c->n++; s++; continue; }
         if (sscanf(s, "%d %d%n", &nt, &w, &used) != 2) return 0;
         if (c->n >= MAXP || nt < 0 || nt > MAXT || w < 1) return 0;
-        c->nt[c->n] = nt; c->w[c->n] = w; c->n++;
+        c->nt[c->n] = nt; c->w[c->n] = w; c->tok[c->ntok++] = c->n; c->n++;
         s += used;
     }
+    if (depth != 0) return 0;
     return c->n >= 1;
 }
 static int crt_config(const char *line, char *key, int keylen, int *threads, char *sched) {
@@ -114,8 +146,9 @@ static void crt_run_case(const char *line, FILE *out) {
         if (C.bare[j]) { tp[j] = PARSEC_OBJ_NEW(parsec_taskpool_t); tp[j]->taskpool_name = strdup("bare"); }
         else tp[j] = (parsec_taskpool_t *)parsec_compound_pool_new(&crt_dc, j, C.nt[j], C.w[j]);
         parsec_taskpool_set_enqueue_callback(tp[j], cb_enq, (void *)(intptr_t)j);
-        c = parsec_compose(c, tp[j]);
     }
+    ncomp = 0;
+    { int pos = 0; c = build_group(tp, &pos, 0); }
     parsec_taskpool_set_complete_callback(c, cb_compound, NULL);
 
     if (C.mode == 1) { rc = parsec_context_start(crt_ctx); if (rc < 0) { fprintf(out, "<start rc=%d>\n", rc); return; } }
@@ -169,7 +202,7 @@ static void crt_run_case(const char *line, FILE *out) {
     fflush(out);
 
     for (int j = 0; j < C.n; j++) parsec_taskpool_free(tp[j]);
-    if (C.n >= 2) parsec_taskpool_free(c);
+    for (int i = 0; i < ncomp; i++) parsec_taskpool_free(comps[i]);
 }
 
 int main(int argc, char **argv) { crt_warmup = 1; return crt_main(argc, argv, "H_COMPOUND_TIMEOUT_MS"); }
